@@ -93,6 +93,9 @@ def unit_binary(unit):
                     forms = []
                     if kb != "timedelta":
                         forms += [("vv", want), ("vl", want), ("vt", want), ("lv", rwant)]
+                        if n and opn in ("add", "sub", "mul"):
+                            # the same elements held by an OBJECT-dtype vector (to_object()) on the left / on the right
+                            forms += [("ov", want), ("vo", want)]
                     else:
                         forms += [("vl", want), ("lv", rwant)]
                     for form, w in forms:
@@ -108,6 +111,11 @@ def unit_binary(unit):
                         try:
                             if form == "vv":
                                 o = Vector(ys); res = op(v, o); operands = [v, o]
+                            elif form == "ov":
+                                v = Vector(xs).to_object(); bv = obs(v)
+                                o = Vector(ys); res = op(v, o); operands = [v, o]
+                            elif form == "vo":
+                                o = Vector(ys).to_object(); res = op(v, o); operands = [v, o]
                             elif form == "vl":
                                 res = op(v, list(ys)); operands = [v]
                             elif form == "vt":
@@ -429,9 +437,12 @@ def unit_table(unit):
 ARG_MENU = [(), ("a",), ("a", "b"), (1,), (2,), (3, "*"), ("utf-8",), (2, "big"), ("%Y-%m",), ({"a": 1},),
             (["x", "y"],), ("B",), ("",), (0,), (8,), ("{}",), ("x", "y", 1), (None,), ("0x1p0",), ("2020-02-29",), (730000,),
             (2020, 1, 1), ("ab", "cd"), ({97: "z"},)]
+KW_MENU = [{"name": "n"}, {"sep": "-"}, {"maxsplit": 1}, {"sep": None, "maxsplit": 1}, {"keepends": True}, {"encoding": "utf-8"}, {"encoding": "ascii", "errors": "replace"},
+           {"tabsize": 2}, {"year": 2001}, {"month": 3, "day": 4}, {"length": 4, "byteorder": "big"}, {"length": 4, "byteorder": "little", "signed": True}, {"sep": " ", "timespec": "hours"},
+           {"chars": None}, {"prefix": "a"}, {"width": 5}, {"fillchar": "*"}]
 EXCLUDE = {"today", "fromtimestamp", "utcfromtimestamp", "now", "utcnow", "max", "min", "resolution", "from_bytes"}
 METHOD_KINDS = {
-    "str": (str, ["a", "B c", "", "a1\tb", "xyx"]),
+    "str": (str, ["a", "B c", "", "a1\tb", "xyx", "{name}!"]),
     "int": (int, [0, 5, -3, 255]),
     "float": (float, [0.5, -2.0, 3.25]),
     "date": (date, [D1, D2]),
@@ -461,21 +472,24 @@ def unit_methods(unit):
     for name in (names if policy == "fresh" else []):
         cls_attr = getattr(pytype, name)
         is_prop = not callable(cls_attr)
-        menus = [()] if is_prop else ARG_MENU
+        menus = [()] if is_prop else list(ARG_MENU) + [("__kw__", kw) for kw in KW_MENU]
         for args in menus:
+            kwargs = {}
+            if args and args[0] == "__kw__":
+                kwargs, args = args[1], ()
             # Python must accept the call on every alphabet element
             try:
                 for a in alpha:
-                    getattr(a, name) if is_prop else getattr(a, name)(*args)
+                    getattr(a, name) if is_prop else getattr(a, name)(*args, **kwargs)
             except Exception:
                 agg.skipped["python-rejects-args"] += 1
                 continue
             for data in datasets:
-                want = [None if x is None else (getattr(x, name) if is_prop else getattr(x, name)(*args)) for x in data]
+                want = [None if x is None else (getattr(x, name) if is_prop else getattr(x, name)(*args, **kwargs)) for x in data]
                 agg.evals += 1; agg.transitions += 1; agg.states += 1
                 if None in data:
                     agg.nontrivial += 1
-                case = {"kind": kind, "method": name, "args": list(args), "data": data, "property": is_prop}
+                case = {"kind": kind, "method": name, "args": list(args), "kwargs": kwargs, "data": data, "property": is_prop}
                 py = (f"from serif import Vector\nfrom datetime import date\nv = Vector({data!r})\n" +
                       (f"print(list(v.{name}))" if is_prop else f"print(list(v.{name}(*{args!r})))") + f"  # expected {want!r}")
                 for declared in ((False, True) if (None in data and any(x is not None for x in data)) else (False,)):
@@ -490,7 +504,7 @@ def unit_methods(unit):
                     else:
                         v = Vector([], dtype=pytype)
                     b = obs(v)
-                    res = getattr(v, name) if is_prop else getattr(v, name)(*args)
+                    res = getattr(v, name) if is_prop else getattr(v, name)(*args, **kwargs)
                   except Exception as e:
                     agg.violation(V(f"method.{kind}.{name}", "raises-" + type(e).__name__ + ("-with-None" if None in data else ("-on-empty" if not data else "")),
                                     case, want, repr(e)[:100], py))
